@@ -52,6 +52,34 @@ example (key : List UInt8) : keyHex (keyCrypto key) [] = hexLower key := keyCryp
 /-- `util::hex::encode` as translated (table lookup in `HEX_BYTES`, read from util.rs) is the model's lower-case hex -/
 theorem c04_generated_hex_is_lowercase_hex (k : List UInt8) : hexLower k = hexBytes k := hexLower_eq_hexBytes k
 
+/-- **the bound `hlen` of `decode_eq` is needed**: on a buffer of exactly `2^64` bytes (which no `BytesMut` can hold) the generated
+code and the model part — `remaining()` is a `usize` and wraps to 0, so the generated `decode` waits (`Ok(None)`), while the
+model, which counts in `Nat`, goes on and rejects the byte at offset 59 -/
+theorem c04_generated_decode_eq_needs_bound (ov : Bool) (C : Crypto) (pw key : Bytes) (b : Bytes)
+    (hlen : b.length = 2 ^ 64) (h59 : b[59]? = some 0) :
+    ServerCodec.decode ov ⟨key, .Header⟩ b = PWGen.Res.ok (⟨key, .Header⟩, b, RResult.ok none) ∧
+    (serverDecode C pw .header b).res = .err := by
+  have hne : b ≠ [] := by intro h; rw [h] at hlen; simp at hlen
+  have hemp : b.isEmpty = false := by
+    cases b with
+    | nil => exact absurd rfl hne
+    | cons x r => rfl
+  constructor
+  · have hr := not_has_remaining hne
+    have g : decide (Cursor.remaining b < 61) = true := by
+      apply decide_eq_true
+      rw [UInt64.lt_iff_toNat_lt, Cursor.remaining, UInt64.toNat_ofNat', hlen]
+      decide
+    simp only [ServerCodec.decode, hr, g, bind_next, bind_ret, run_ret, Bool.false_eq_true, ↓reduceIte]
+  · have h61 : ¬ b.length < 61 := by rw [hlen]; decide
+    have ht : Socks5Addr.tryDecodeAt b 59 = .err := by simp [Socks5Addr.tryDecodeAt, h59]
+    simp [serverDecode, hemp, h61, ht]
+
+/-- such a buffer exists as a Lean list -/
+example : (List.replicate (2 ^ 64) (0 : UInt8)).length = 2 ^ 64 ∧ (List.replicate (2 ^ 64) (0 : UInt8))[59]? = some 0 := by
+  refine ⟨List.length_replicate, ?_⟩
+  rw [List.getElem?_replicate]; simp
+
 /-! ## (b) corollaries -/
 
 /-- **C07, generated `decode`: never panics** — every key, every state, every buffer content (of a length a `BytesMut` can
